@@ -575,6 +575,7 @@ func C15(c *Ctx) {
 
 	// (1) RedirectPath taint
 	n := 0
+	badSites := map[string]int{}
 	for _, fn := range c.P.Funcs {
 		for _, call := range CallsTo(fn, fnRedirect) {
 			n++
@@ -611,7 +612,14 @@ func C15(c *Ctx) {
 				r.Ok("C15.redirect-path", name, "RedirectPath", pos, "client data only after a constant/configured same-site prefix ("+strings.Join(uniq(srcs), ", ")+")")
 				continue
 			}
-			r.Bad("C15.redirect-path", name, "RedirectPath", pos, "RedirectPath, which the redirector follows without any guard, is client-controlled from its first byte: "+strings.Join(uniq(srcs), ", ")+" — an absolute URL there sends the browser off-site")
+			// one obligation per offending site of the function (the first keeps the plain
+			// name, so that what is known about one site does not cover another)
+			badSites[name]++
+			construct := "RedirectPath"
+			if badSites[name] > 1 {
+				construct = sprintf("RedirectPath#%d", badSites[name])
+			}
+			r.Bad("C15.redirect-path", name, construct, pos, "RedirectPath, which the redirector follows without any guard, is client-controlled from its first byte: "+strings.Join(uniq(srcs), ", ")+" — an absolute URL there sends the browser off-site")
 		}
 	}
 	r.Extra["redirect_call_sites"] = n
